@@ -3309,6 +3309,20 @@ where
             }
         }
 
+        // The per-insertion and final flip repairs reorder cell vertices. Restore canonical
+        // positive geometric orientation before handing out the triangulation; otherwise a
+        // release build (no per-insertion Level 3 validation for `Pseudomanifold`) can return
+        // Ok with a negatively oriented cell that `Triangulation::is_valid()` rejects.
+        if self.tri.tds.number_of_cells() > 0 {
+            self.tri
+                .normalize_and_promote_positive_orientation()
+                .map_err(|err| TriangulationConstructionError::GeometricDegeneracy {
+                    message: format!(
+                        "Geometric orientation normalization failed after construction: {err}"
+                    ),
+                })?;
+        }
+
         if topology.requires_vertex_links_at_completion() {
             tracing::debug!("post-construction: starting topology validation (finalize)");
             let validation_started = Instant::now();
